@@ -26,6 +26,10 @@ type c19Case struct {
 	// the server's secret).  Mode "sent": Bytes is the client's cleartext, obfuscated with the client's secret.
 	Mode  string  `json:"mode"`
 	Bytes model.B `json:"bytes"`
+	// Waiting: the packet continues a session that was opened just before on the same connection by a
+	// well-formed packet under the right key and is waiting for its continuation (the handler registered
+	// one); Seq is then at least 3
+	Waiting bool `json:"waiting,omitempty"`
 }
 
 // seen computes the bytes the server sees after removing its own pad.
@@ -139,6 +143,9 @@ func genC19(t *rapid.T) c19Case {
 	if len(c.Bytes) > 65536 {
 		c.Bytes = c.Bytes[:65536]
 	}
+	if c.Seq >= 3 && rapid.IntRange(0, 2).Draw(t, "continues_waiting_session") == 0 {
+		c.Waiting = true
+	}
 	return c
 }
 
@@ -173,6 +180,21 @@ func runC19(t failer, c c19Case) model.Class {
 		t.Fatalf("%v", err)
 	}
 	d := &connDriver{c: conn}
+	warm := 0
+	if c.Waiting {
+		ev.Class("continues-a-waiting-session")
+		rh.reply = func(resp tq.Response, req tq.Request) {
+			if len(rh.requests()) == 1 {
+				resp.Next(rh)
+				_, _ = resp.Reply(rawED{[]byte{5, 0, 0, 0, 0, 0}})
+			}
+		}
+		wh := model.Header{Version: 0xc0 | c.Minor, Type: c.Type, Seq: c.Seq - 2, Session: c.Session}
+		if _, _, wclosed, err := d.send(model.Frame(c.ServerSecret, wh, consistentBody(c.Type, 8, []byte{1}))); err != nil || wclosed {
+			t.Fatalf("HARNESS-BUG: the opening packet of the waiting session was refused (closed=%v err=%v)", wclosed, err)
+		}
+		warm = 1
+	}
 	pkts, rest, closed, err := d.send(wire)
 	if err != nil {
 		t.Fatalf("%v", err)
@@ -180,7 +202,7 @@ func runC19(t failer, c c19Case) model.Class {
 	if e := srv.stop(); e != nil {
 		t.Fatalf("%v", e)
 	}
-	calls := len(rh.requests())
+	calls := len(rh.requests()) - warm
 	if len(pkts) > 1 || len(rest) != 0 {
 		fail("too-many-packets", "%d packets (+%d stray bytes) written for one request", len(pkts), len(rest))
 	}
